@@ -370,3 +370,87 @@ class SimfsScenario(Scenario):
             simfs.activate(None)
         self._seq_cache[order] = out
         return out
+
+
+class RedisScenario(Scenario):
+    """Workers are "processes": each has its own JournalStorage(JournalRedisBackend) with its own
+    client on ONE fakeredis server; scheduling points are Redis commands (vf/redisx.py). config
+    'jredis-procs' = Lua-atomic appends, 'jredis-cluster-procs' = use_cluster=True (INCR then SET)."""
+
+    def __init__(self, config: str, setup: str, programs: list[list[tuple]]) -> None:
+        from . import redisx
+
+        super().__init__(config, setup, programs, [])
+        redisx.install()
+        self.cluster = "cluster" in config
+
+    def _mk(self, server: Any) -> Any:
+        import warnings
+
+        import fakeredis
+        from optuna.storages import JournalStorage
+        from optuna.storages.journal import JournalRedisBackend
+
+        from . import redisx
+
+        with warnings.catch_warnings():
+            warnings.simplefilter("ignore")
+            b = JournalRedisBackend("redis://localhost", use_cluster=self.cluster)
+        b._redis = redisx.SchedRedis(fakeredis.FakeStrictRedis(server=server))
+        return JournalStorage(b)
+
+    def _world(self) -> tuple:
+        import fakeredis
+
+        backends.reset_uuid()
+        server = fakeredis.FakeServer()
+        s0 = self._mk(server)
+        ids: dict = {}
+        for name, op in SETUPS[self.setup]:
+            r = do_op(s0, op, ids)
+            ids[name] = r[1] if isinstance(r, tuple) else r
+        workers = [self._mk(server) for _ in self.programs]
+        return server, ids, workers
+
+    def execute(self, ch: Chooser) -> dict:
+        from . import redisx
+
+        server, ids, workers = self._world()
+        sched = redisx.PollSched(ch)
+        hist: list = []
+
+        def mk(ti: int) -> Callable[[], None]:
+            def body() -> None:
+                for k, op in enumerate(self.programs[ti]):
+                    sched.point("op-start")
+                    inv = sched.now()
+                    res = outcome(workers[ti], op, ids)
+                    resp = sched.now()
+                    hist.append((ti, k, inv, resp, res))
+            return body
+
+        threads = sched.run([mk(i) for i in range(len(self.programs))])
+        errors = [t.error for t in threads if t.error and t.error != "deadlock"]
+        stuck = sched.deadlock or sched.livelock
+        final = None
+        diverged = []
+        if not stuck:
+            final = dump(self._mk(server))
+            for i, w in enumerate(workers):
+                try:
+                    if dump(w) != final:
+                        diverged.append(i)
+                except Exception as e:
+                    diverged.append((i, type(e).__name__))
+        return {"hist": hist, "final": final, "deadlock": stuck, "errors": errors, "trace": sched.trace, "steps": sched.step,
+                "diverged": diverged}
+
+    def sequential(self, order: tuple) -> tuple:
+        if order in self._seq_cache:
+            return self._seq_cache[order]
+        server, ids, workers = self._world()
+        calls = [(ti, self.programs[ti][k]) for ti, k in order]
+        res = SeqRunner(len(self.programs)).run(calls, workers, ids)
+        out = (tuple(res), dump(self._mk(server)))
+        self._seq_cache[order] = out
+        return out
